@@ -32,8 +32,7 @@ void drive_ldexp(const char* type, const char* opname, const std::vector<typenam
         if (c.cases <= 2) add_sample(std::string(opname) + "(a[0]=" + hex(a[0]) + ",e[0]=" + std::to_string((long long)e[0]) + ")");
         if (!ok) continue;
         for (unsigned i = 0; i < W; ++i) {
-            volatile T x = a[i];
-            T exp = std::ldexp(x, (int)e[i]);
+            T exp = Libm<T>::ldexp(a[i], (int)e[i]);
             c.lanes++;
             if (!same_fp(res[i], exp))
                 viol("value", fcls(a[i]) | ((e[i] == 0 ? 0u : (e[i] > 0 ? 1u : 2u)) << 4) | ((std::abs((long long)e[i]) > 2200 ? 1u : 0u) << 6), (int)i,
@@ -56,29 +55,29 @@ void run(const char* type) {
 
     // frexp: finite non-zero -> libm mantissa and exponent; zeros -> themselves, exponent 0; inf/NaN -> themselves, exponent not compared
     fdrive_unary<V, T>("C12", type, "frexp_mant", vals, [](V a) { IV e; return avel::to_array(avel::frexp(a, &e)); },
-                       [](T a, T& o) { int e; volatile T x = a; o = std::frexp(x, &e); return true; }, feq);
+                       [](T a, T& o) { int e; o = Libm<T>::frexp(a, &e); return true; }, feq);
     fdrive_unary<V, IT>("C12", type, "frexp_exp", vals, [](V a) { IV e; (void)avel::frexp(a, &e); return avel::to_array(e); },
-                        [](T a, IT& o) { if (is_nan_bits(a) || std::isinf(a)) return false; int e; volatile T x = a; (void)std::frexp(x, &e); o = e; return true; }, ieq);
+                        [](T a, IT& o) { if (is_nan_bits(a) || std::isinf(a)) return false; int e; (void)Libm<T>::frexp(a, &e); o = e; return true; }, ieq);
     // ilogb / logb
     fdrive_unary<V, IT>("C12", type, "ilogb", vals, [](V a) { return avel::to_array(avel::ilogb(a)); },
-                        [](T a, IT& o) { volatile T x = a; o = (IT)std::ilogb(x); return true; }, ieq);
+                        [](T a, IT& o) { o = (IT)Libm<T>::ilogb(a); return true; }, ieq);
     fdrive_unary<V, T>("C12", type, "logb", vals, [](V a) { return avel::to_array(avel::logb(a)); },
-                       [](T a, T& o) { volatile T x = a; o = std::logb(x); return true; }, feq);
+                       [](T a, T& o) { o = Libm<T>::logb()(a); return true; }, feq);
     // frac: x - trunc(x) by value; infinities -> NaN; NaN -> NaN
     fdrive_unary<V, T>("C12", type, "frac", vals, [](V a) { return avel::to_array(avel::frac(a)); },
-                       [](T a, T& o) { if (std::isinf(a)) { o = (T)NAN; return true; } volatile T x = a; volatile T t = std::trunc(x); volatile T r = x - t; o = r; return true; }, veq);
+                       [](T a, T& o) { if (std::isinf(a)) { o = (T)NAN; return true; } volatile T x = a; volatile T t = Libm<T>::trunc()(a); volatile T r = x - t; o = r; return true; }, veq);
     // fmax / fmin
     fdrive_binary<V, T>("C12", type, "fmax", pairs, [](V a, V b) { return avel::to_array(avel::fmax(a, b)); },
-                        [](T a, T b, T& o) { bool na = is_nan_bits(a), nb = is_nan_bits(b); if (na && nb) { o = (T)NAN; return true; } if (na) { o = b; return true; } if (nb) { o = a; return true; } o = a < b ? b : a; return true; },
+                        [](T a, T b, T& o) { if (is_snan_bits(a) || is_snan_bits(b)) return false; bool na = is_nan_bits(a), nb = is_nan_bits(b); if (na && nb) { o = (T)NAN; return true; } if (na) { o = b; return true; } if (nb) { o = a; return true; } o = a < b ? b : a; return true; },
                         [](T got, T exp) { return same_value(got, exp); });
     fdrive_binary<V, T>("C12", type, "fmin", pairs, [](V a, V b) { return avel::to_array(avel::fmin(a, b)); },
-                        [](T a, T b, T& o) { bool na = is_nan_bits(a), nb = is_nan_bits(b); if (na && nb) { o = (T)NAN; return true; } if (na) { o = b; return true; } if (nb) { o = a; return true; } o = b < a ? b : a; return true; },
+                        [](T a, T b, T& o) { if (is_snan_bits(a) || is_snan_bits(b)) return false; bool na = is_nan_bits(a), nb = is_nan_bits(b); if (na && nb) { o = (T)NAN; return true; } if (na) { o = b; return true; } if (nb) { o = a; return true; } o = b < a ? b : a; return true; },
                         [](T got, T exp) { return same_value(got, exp); });
     // when exactly one operand is NaN the *other operand* comes back: also its sign of zero
     fdrive_binary<V, T>("C12", type, "fmax_one_nan", pairs, [](V a, V b) { return avel::to_array(avel::fmax(a, b)); },
-                        [](T a, T b, T& o) { bool na = is_nan_bits(a), nb = is_nan_bits(b); if (na == nb) return false; o = na ? b : a; return true; }, feq);
+                        [](T a, T b, T& o) { if (is_snan_bits(a) || is_snan_bits(b)) return false; bool na = is_nan_bits(a), nb = is_nan_bits(b); if (na == nb) return false; o = na ? b : a; return true; }, feq);
     fdrive_binary<V, T>("C12", type, "fmin_one_nan", pairs, [](V a, V b) { return avel::to_array(avel::fmin(a, b)); },
-                        [](T a, T b, T& o) { bool na = is_nan_bits(a), nb = is_nan_bits(b); if (na == nb) return false; o = na ? b : a; return true; }, feq);
+                        [](T a, T b, T& o) { if (is_snan_bits(a) || is_snan_bits(b)) return false; bool na = is_nan_bits(a), nb = is_nan_bits(b); if (na == nb) return false; o = na ? b : a; return true; }, feq);
     // fdim: x > y -> x - y correctly rounded; x <= y -> a zero; NaN operands and equal infinities are not generated
     fdrive_binary<V, T>("C12", type, "fdim", pairs, [](V a, V b) { return avel::to_array(avel::fdim(a, b)); },
                         [](T a, T b, T& o) { if (is_nan_bits(a) || is_nan_bits(b)) return false; if (std::isinf(a) && std::isinf(b) && a == b) return false;
